@@ -274,6 +274,10 @@ func c07One(w *mon.W, s *gen.TokenSpec, label string) {
 	if _, err := tk.ToSealedWriter(&buf, s.Iss.Priv); err != nil {
 		w.Violate("seal-fails/writer/"+s.Type+"/"+tkey, "ToSealedWriter fails where ToSealed succeeds: "+err.Error(), desc)
 	}
+	if iss := gen.AccessorIssues(tk); len(iss) > 0 {
+		desc["issues"] = iss
+		w.Violate("accessors-disagree/constructed/"+s.Type, "the accessors of a constructed token disagree with each other: "+iss[0], desc)
+	}
 	nontrivial := len(s.Meta.M) > 0 || len(s.Args.M) > 0 || len(s.Pol) > 0 || s.Exp != nil || s.Nbf != nil
 	results := map[string]ref.V{}
 	for _, d := range c07Decoders(s.Type) {
@@ -322,6 +326,13 @@ func c07One(w *mon.W, s *gen.TokenSpec, label string) {
 		}
 		f2 := gen.Fields(t2)
 		results[d.name] = f2
+		// the keyed getters of the decoded token agree with what iteration yields
+		if iss := gen.AccessorIssues(t2); len(iss) > 0 {
+			m := c()
+			m["issues"] = iss
+			w.Violate("accessors-disagree/decoded/"+s.Type, fmt.Sprintf("the accessors of the token returned by %s disagree with each other: %s", d.name, iss[0]), m)
+		}
+		w.Cover("accessors-cross-checked")
 		if diff := gen.FieldDiff(f0, f2); diff != "" {
 			m := c()
 			m["original_fields"] = f0.String()
